@@ -293,8 +293,14 @@ def w_loc(g):
 
     alt = g.r.choice([0, 1, 9999999, 10000000, 10000001, 10000100, 2 ** 32 - 1, 2 ** 31, g.r.below(2 ** 32), 10000000 + g.r.below(1000000),
                       10000000 - g.r.below(1000000)])
-    if g.r.chance(1, 3):
+    k = g.r.below(6)
+    if k <= 1:
         s, h, v = 0x12, 0x16, 0x13  # the defaults: 1m 10000m 10m
+    elif k == 2:
+        # exactly one of the three differs from its default (to_text omits the three only when all are defaults)
+        s, h, v = 0x12, 0x16, 0x13
+        which = g.r.below(3)
+        s, h, v = (sz() if which == 0 else s), (sz() if which == 1 else h), (sz() if which == 2 else v)
     else:
         s, h, v = sz(), sz(), sz()
     return struct.pack("!BBBBIII", 0, s, h, v, coord(90), coord(180), alt)
